@@ -1,13 +1,52 @@
-/- line-protocol handlers of the "transport" family (stub: filled in by the family's model) -/
+/- line-protocol handlers of the "transport" family (C05 TRSO, C06 transport vocabulary, C09 ctfTRu / ctfTR) -/
 import Y0.Model.Graph
 import Y0.Model.Expr
+import Y0.Model.Trso
 import Y0.Driver.Graph
 
 namespace Y0.Driver
-open Y0 Sexp
+open Y0 Sexp Y0.Trso
 
-def handleTransport (op : String) (args : List Sexp) : Option Sexp :=
+/-- `((pop (v …)) …)` -/
+def parseAssoc : Sexp → Option (List (Nat × List Nat))
+  | .list xs => xs.mapM fun
+      | .list [p, vs] => do pure (← asNat? p, ← asNats? vs)
+      | _ => none
+  | _ => none
+
+def optExprToSexp : Except Err (Option Expr) → Sexp
+  | .ok (some e) => tagged "ok" [Codec.exprToSexp e]
+  | .ok none => tagged "none" []
+  | .error e => e.toSexp
+
+def exprResult : Except Err Expr → Sexp
+  | .ok e => tagged "ok" [Codec.exprToSexp e]
+  | .error e => e.toSexp
+
+def boolSexp (b : Bool) : Sexp := .atom (if b then "true" else "false")
+
+def handleTransport (op : String) (args : List Sexp) : Option Sexp := do
   match op, args with
+  | "identify", [g, y, x, so, si] =>
+      pure (optExprToSexp (identifyTargetOutcomes dSeparated (← parseGraph g) (← asNats? y) (← asNats? x)
+        (← parseAssoc so) (← parseAssoc si)))
+  | "nodes_to_transport", [g, z, w] =>
+      pure (exceptToSexp ofNats (getNodesToTransport (← parseGraph g) (← asNats? z) (← asNats? w)))
+  | "transport_diagram", [g, ns] =>
+      pure (tagged "ok" [graphToSexp (createTransportDiagram (← parseGraph g) (← asNats? ns))])
+  | "separated", [g, x, y] =>
+      pure (exceptToSexp boolSexp (allTransportsDSeparated dSeparated (← parseGraph g) (← asNats? x) (← asNats? y)))
+  | "d_separated", [g, a, b, c] =>
+      pure (exceptToSexp boolSexp (dSeparated (← parseGraph g) (← asNat? a) (← asNat? b) (← asNats? c)))
+  | "activate", [e, zs, d] =>
+      pure (exprResult (activate (← asNats? zs) (← asNat? d) (← Codec.exprOf? e)))
+  | "canonicalize", [e] => pure (exprResult (TrDsl.canonicalize (← Codec.exprOf? e)))
+  | "mul", [a, b] => pure (exprResult (TrDsl.mul (← Codec.exprOf? a) (← Codec.exprOf? b)))
+  | "truediv", [a, b] => pure (exprResult (TrDsl.truediv (← Codec.exprOf? a) (← Codec.exprOf? b)))
+  | "sum_safe", [e, r, s] =>
+      pure (tagged "ok" [Codec.exprToSexp (TrDsl.sumSafe (← Codec.exprOf? e) ((← asNats? r).map Var.plain) (s == .atom "true"))])
+  | "product_safe", [.list es] =>
+      pure (tagged "ok" [Codec.exprToSexp (TrDsl.productSafe (← es.mapM Codec.exprOf?))])
   | _, _ => none
 
 end Y0.Driver
